@@ -291,7 +291,14 @@ def run_case(case, ctx, objs=None):
             # list reduction, left to right
             if op in ('add', 'mul', 'min', 'max'):
                 arg_list = list(objs)
-                st, got = ctx.call(FN[op], arg_list, **kw) if case.get('as_list', True) else ctx.call(FN[op], objs[0], list(objs[1:]), **kw)
+                if case.get('as_list', True) == 'head_list' and len(objs) >= 3:
+                    # the leading operands as one list, the last one on its own: f([a, b], c); the caller's list stays what it was
+                    arg_list = list(objs[:-1])
+                    st, got = ctx.call(FN[op], arg_list, objs[-1], **kw)
+                    ctx.check('inputs_unmodified', len(arg_list) == len(objs) - 1 and all(a is b for a, b in zip(arg_list, objs)), lambda: '%s_(list, other) edited the list of operands it was given: %d -> %d members' % (op, len(objs) - 1, len(arg_list)))
+                    arg_list = list(objs)
+                else:
+                    st, got = ctx.call(FN[op], arg_list, **kw) if case.get('as_list', True) else ctx.call(FN[op], objs[0], list(objs[1:]), **kw)
                 ctx.check('inputs_unmodified', len(arg_list) == len(objs) and all(a is b for a, b in zip(arg_list, objs)), lambda: '%s_ edited the list of operands it was given' % op)
                 acc = ms[0]
                 for m in ms[1:]:
@@ -450,6 +457,8 @@ def gen_case(rng):
             else:
                 o['v'] = abs(o['v'])
     case = {'op': op, 'operands': operands, 'join': join, 'columns': columns, 'as_list': rng.random() < 0.6}
+    if len(operands) >= 3 and op in ('add', 'mul', 'min', 'max') and rng.random() < 0.3:
+        case['as_list'] = 'head_list'
     if len(operands) == 2 and op in ('add', 'sub', 'mul', 'div', 'min', 'max', 'gt', 'le') and rng.random() < 0.1:
         case['reverse'] = rng.randrange(2)
         return case
